@@ -368,6 +368,12 @@ func (x *executor) violate(kind, label, detail string, extra string) {
 		m = x.model()
 	}
 	x.sol.popQuery()
+	if r == "unsat" && extra == "" {
+		// a definite answer: no input drives execution down this path (a branch whose feasibility the solver could not
+		// decide in time was kept, and is refuted now): the path is infeasible, nothing is claimed or missed on it
+		x.res.Notes = appendUniq(x.res.Notes, "a kept branch of undecided feasibility was refuted later: infeasible path dropped")
+		panic(pathEnd{"infeasible path"})
+	}
 	if r != "sat" {
 		x.inconclusive(fmt.Sprintf("%s %q: no model for the failing path (%s)", kind, label, r))
 		panic(pathEnd{"violation without model"})
